@@ -10,10 +10,7 @@ from . import C02
 
 META = {
     'design_ref': 'DESIGN.md §3 C12',
-    'technique': 'contradiction/guard rule for optional table entries on the CFG (membership or KeyError guard must dominate every '
-                 'self[key] reached from a loop over _multivalued_fields, directly or one call deep; no break/return inside such loops); '
-                 'writer template of _multivalued.get_as_string extracted by abstract interpretation and pushed, as the value of the '
-                 'dump template, through the Deb822 reader cascade; token-boundary inclusion for split(); table and kind checks',
+    'technique': 'guard rule for optional table entries on the CFG and in comprehensions; writer template of _multivalued.get_as_string extracted by abstract interpretation and pushed, as the value of the dump template, through the Deb822 reader line classes; token-boundary inclusion for split(); width kinds from path enumeration; frame rule (no hidden state in the width computation)',
     'level_text': 'Static decision: absent optional structured fields can never raise from the size-column computation and never stop '
                   'the computation for the remaining fields; every line written for a record list is a continuation line the reader '
                   'keeps verbatim, ends the field correctly and splits on whitespace into exactly the written tokens; reader and writer '
